@@ -4,12 +4,13 @@ CONSTANTS
   W = 99
   Back = {1, 50, 1000}
   Fwd = {0, 1, 2, 50, 98, 99, 100, 1000}
+  AbsLow = {1, 5, 104}
   Pairings = {"A", "B"}
   Foreign = {"X"}
   Iids = {1, 2}
   Vals = {1, 2}
-  Starts = {1000}
-  KeyAtStart = {TRUE, FALSE}
+  Starts = {1000, 65500}
+  KeyAtStart = {TRUE}
   MaxSteps = 3
 PROPERTY OnlyAuthenticFresh
 PROPERTY AcceptedDelivered
